@@ -322,6 +322,16 @@ def c18():
         binary = os.path.join(vlib.BUILD, "grits")
 
         def run(cfg):
+            # a program that prints is given up to three executions to do so: the interpreter declares quiescence after 50 ms without a heartbeat,
+            # which on a loaded machine can come before the first step of a process
+            o = run1(cfg)
+            for _ in range(2):
+                if o.get("hang") or o.get("prints") or not o.get("spawned") or o.get("panic") or cfg["class"] not in ("welltyped_prints", "illtyped_stuck"):
+                    break
+                o = run1(cfg)
+            return o
+
+        def run1(cfg):
             r = random.Random(json.dumps(cfg, sort_keys=True) + str(seed))
             path = r.choice(files[cfg["class"]])
             args = _cli_args(cfg, path, r)
